@@ -67,13 +67,19 @@ pub fn analyze_dir(
             .path();
 
         if file_path.is_dir() {
-            qa_locations.extend(analyze_dir(
+            //Merge the findings of the nested dir into the findings collected so far
+            for (target, mut nested_locations) in analyze_dir(
                 file_path
                     .as_os_str()
                     .to_str()
                     .expect("Could not get nested dir"),
                 qa.clone(),
-            ))
+            ) {
+                qa_locations
+                    .entry(target)
+                    .or_insert(vec![])
+                    .append(&mut nested_locations);
+            }
         } else {
             let file_name = file_path
                 .file_name()
